@@ -17,7 +17,7 @@ type Wire struct {
 
 	LinkA, LinkB peering.Link
 	// AttemptB is B's link object whether or not it got registered.
-	AttemptB peering.Link
+	AttemptB     peering.Link
 	ErrA, ErrB   error
 	DoneA, DoneB bool
 	PanicA       any
